@@ -626,8 +626,10 @@ def generate_numpy_like(expr: Array | Mapping[str, Array] | DictOfNamedArrays,
                   args=ast.arguments(
                       args=[],
                       posonlyargs=[],
+                      # sorted: the generated source must not depend on the
+                      # iteration order of a set of strings
                       kwonlyargs=[ast.arg(arg=name)
-                                  for name in cgen_mapper.arg_names],
+                                  for name in sorted(cgen_mapper.arg_names)],
                       kw_defaults=[None for _ in cgen_mapper.arg_names],
                       defaults=[]),
                   body=lines,
